@@ -13,6 +13,10 @@ Oracle.  Every case is judged three ways: Spec (ValidRequest / ValidResponse, de
 (OPEN iff valid; no exception leaves dataReceived/data_received), and Model vs implementation on all observables
 (octets written while CONNECTING, state, drop kind, onConnect/onOpen).  F4 / F5 (exceptions leaving dataReceived) are
 repaired in /repo (96829a53, cb4d1ff0) and the model mirrors the repaired behaviour; any exception is a violation again.
+Likewise repaired and mirrored: int() syntax of Sec-WebSocket-Version (server) and of the status code (client) -- both now
+matched against the RFC grammar, tied by the sweeps `version-sweep:*` / `status-sweep:*` (every numeral-like string <= 3 on
+real objects) --, the subprotocol check against the announced protocols, path parameters in the resource, IPv6 brackets in
+the Host header.  Run against a tree without these repairs the check reports each of them again, under its old key.
 Seeded change /verif/seeded/c07 (client checks the server's subprotocol by substring of the comma-joined request value):
 exit 1, client-opens-invalid:protocol, replay `Sec-WebSocket-Protocol: wamp.2` for ['wamp.2.json','wamp.2.msgpack'].
 
@@ -23,7 +27,7 @@ Mutation self-test (scratch copy of /repo/src, `VERIF_REPO=/tmp/... ./check C07 
   M3  `if version not in self.versions` disabled                         exit 1  server-opens-invalid:version; interop-opens-unsupported-version
   M4  Upgrade token check disabled                                       exit 1  server-opens-invalid:upgrade
   M5  client: Sec-WebSocket-Accept comparison disabled                   exit 1  client-opens-invalid:accept
-  M6  client: `sp not in self.factory.protocols` disabled                exit 1  client-opens-invalid:protocol
+  M6  client: subprotocol membership check disabled                      exit 1  client-opens-invalid:protocol
   M7  maxConnections `>` -> `>=`                                         exit 1  server-rejects-valid:fail503
   M8  Host count check disabled                                          exit 1  server-opens-invalid:host
   M9  accept digest over GUID+key instead of key+GUID                    exit 1  server-reply:accept; interop-fails:client
@@ -66,16 +70,20 @@ MANIFEST_ENTRY = {
     "technique": "Lean 4 theorems over an executable model of both handshake sides + grammar-based differential search on real "
                  "Twisted/asyncio protocol objects",
     "text": "Proved in Lean for all byte strings, configurations and chunkings: the server model opens exactly for ValidRequest (RFC 6455 "
-            "4.2.1 + versions/origin/capacity) and an accepting onConnect, the client model exactly for ValidResponse; the 101 reply carries "
+            "4.2.1 + versions/origin/capacity) and an accepting onConnect, the client model exactly for ValidResponse (status code 101 written "
+            "as three digits, subprotocol among those the request announced); the 101 reply carries "
             "acceptDigest(key), a subprotocol from the client's list and only offered extensions; origin patterns match the whole origin; "
-            "the verdict does not depend on segmentation; the client request targets host/port/resource. The models are tied to the code by "
+            "the verdict does not depend on segmentation; the client request targets host/port/resource (IPv6 host in brackets, resource = "
+            "path with its parameters + query). The models are tied to the code by "
             "running generated requests/responses (one deviation each, arbitrary and non-UTF-8 octets, oversized, all chunkings) on real "
             "protocol objects of both frameworks, by the client x server option matrix wired back-to-back, and by exhaustive small-string "
             "correspondence of the string primitives.",
     "note": "never_escapes is proved in full for server and client (after the fixes 96829a53 / cb4d1ff0 of F4 / F5, mirrored in the "
-            "model). Partial where the code still deviates: Python int() syntax for Sec-WebSocket-Version / status code, subprotocol "
-            "compared with factory.protocols, path parameters dropped from the resource, unbracketed IPv6 Host -- each a known finding "
-            "with its own key and a negation witness in Lean. ipaddress/hyperlink/parse_qs internals are inputs of the model.",
+            "model). server_accepts_iff_valid and client_opens_iff_valid are proved without hypotheses since the repairs of the five "
+            "former findings (Python int() syntax for Sec-WebSocket-Version / status code, subprotocol compared with factory.protocols, "
+            "path parameters dropped from the resource, unbracketed IPv6 Host): the model mirrors the repaired code, the examples that "
+            "were negation witnesses now show model and Spec agreeing, and the check reports each defect again if it returns. "
+            "ipaddress/hyperlink/parse_qs internals are inputs of the model.",
 }
 
 
@@ -193,7 +201,6 @@ def cli_cfg_tok(cfg, target):
          "hd=" + pairs_tok(cfg.get("headers") or []),
          "o=" + hx(L(cfg.get("origin") or "")),
          "p=" + (",".join(hx(L(x)) for x in req_ps) or "_"),
-         "fp=" + (",".join(hx(L(x)) for x in ps) or "_"),
          "v=%d" % cfg.get("version", 18),
          "of=" + (",".join(hx(L(x)) for x in cfg.get("offer_strings", [])) or "_"),
          "ac=%d" % int(cfg.get("accept") == "acceptAll")]
@@ -451,7 +458,7 @@ def part_server(ctx, res, J, only=None):
     runs = []          # (case, chunks)
     variants = ("whole", "bytes", "lines", "midterm")
     for i, c in enumerate(cases):
-        for v in variants:
+        for v in c.get("variants", variants):
             if v == "bytes" and ctx.tier == "quick" and len(c["data"]) > 60 and i % 4:
                 continue
             runs.append((c, G.split_variants(c["data"], v)))
@@ -512,7 +519,7 @@ def part_client(ctx, res, J, only=None):
         if c["cfg"].get("offers"):
             c["cfg"]["offer_strings"] = ["permessage-deflate; client_no_context_takeover; client_max_window_bits"] * len(c["cfg"]["offers"])
         c["bytes"] = G.build_response(c["data"], bytes.fromhex(dig[c["key"]]))
-        for v in ("whole", "bytes", "lines", "midterm"):
+        for v in c.get("variants", ("whole", "bytes", "lines", "midterm")):
             if v == "bytes" and ctx.tier == "quick" and len(c["bytes"]) > 60 and i % 4:
                 continue
             runs.append((c, G.split_variants(c["bytes"], v)))
@@ -777,6 +784,9 @@ def part_requests(ctx, res, J):
             cfgs.append(c)
     cfgs.append({"url": "ws://localhost:9000", "protocols": ["x"], "connecting": {"host": "other", "port": 1234, "resource": "/r?z", "protocols": ["y"],
                                                                                   "origin": "http://c.example", "useragent": "UA"}})
+    # hosts handed over by onConnecting: an IPv6 address with and without brackets, a name (Host header brackets, model hostHeader)
+    for h in ("2001:db8::1", "[2001:db8::1]", "::", "h.example", "[", "a:b"):
+        cfgs.append({"url": "ws://localhost:9000", "connecting": {"host": h, "port": 81, "resource": "/", "protocols": []}})
     keys = [ctx.rng.randbytes(16).hex() for _ in cfgs]
     for c in cfgs:
         c["offer_strings"] = [offer_string(o) for o in c.get("offers", [])]
